@@ -272,13 +272,22 @@ def gas_phase(draw, n, soln):
 
 @st.composite
 def kinetics(draw, n):
+    """Only rate laws that the Runge-Kutta integrator integrates exactly (constant rates): with any other law the two
+    runs of a pair agree only to the integrator's -tol (the step sequence depends on rounding), which is C12's subject,
+    not an invariance (observed: a rate k x TOT("water") gives amounts that differ by 2e-6 relative between f = 1 and
+    f = 100 because the accepted step sequence changes).  Rate = k x M0, never exhausting the reactant."""
     rates = []
+    time = draw(logu(10.0, 1e5, 3))
     for k, (fm, ph) in enumerate(draw(st.lists(st.sampled_from(KIN_FORMULAS), min_size=1, max_size=2, unique=True))):
         m0 = draw(logu(1e-4, 1e-1, 3))
-        rates.append({"name": "Kr%d" % (k + 1), "formula": fm, "phase": ph, "law": draw(st.integers(0, 2)),
-                      "m0": m0, "m": draw(st.one_of(st.just(m0), logu(1e-4, 1e-1, 3))),
-                      "k": draw(logu(1e-9, 1e-5, 3)), "tol": draw(st.sampled_from([1e-8, 1e-10]))})
-    return {"n": n, "rates": rates, "time": draw(logu(10.0, 1e5, 3)), "steps": draw(st.integers(1, 3))}
+        m = draw(st.one_of(st.just(m0), logu(1e-4, 1e-1, 3)))
+        law = 1     # law 0 (k x TOT("water")) follows the water mass, which moves during the step: 2e-6 scatter observed
+        # total amount reacted (mol per kg water resp. per mol M0) stays below 20 % of what is there
+        frac = draw(logu(1e-4, 0.2, 3))
+        kk = frac * m / time / (20.0 if law == 0 else m0)      # law 0: water <= 20 kg
+        rates.append({"name": "Kr%d" % (k + 1), "formula": fm, "phase": ph, "law": law,
+                      "m0": m0, "m": m, "k": float("%.3g" % kk), "tol": draw(st.sampled_from([1e-8, 1e-10]))})
+    return {"n": n, "rates": rates, "time": time, "steps": draw(st.integers(1, 3))}
 
 
 KINDS = ["spec", "batch", "exch", "surf", "gas", "kin"]
@@ -294,9 +303,7 @@ def model(draw, kind=None, want_mix=False, nsol=None):
     m = {"db": DB, "kind": kind, "sols": sols, "eq": None, "rx": None, "ex": None, "su": None, "gas": None, "kin": None,
          "save": None, "st2": None, "mixn": draw(st.integers(0, 30))}
     # what enters the reaction of simulation 1
-    # MIX is never combined with KINETICS: on the unchanged tree a non-converging kinetic step with a mixture in use
-    # dereferences a null mix pointer (replays/C15/known/segv-mix-kinetics-nonconvergence)
-    if kind != "kin" and (want_mix or (kind != "spec" and nsol > 1 and draw(st.booleans()))):
+    if want_mix or (kind != "spec" and nsol > 1 and draw(st.booleans())):
         k = draw(st.integers(1, nsol))
         if want_mix:
             k = max(k, min(2, nsol))
@@ -375,7 +382,7 @@ FAMILIES = ["U", "U1", "W", "N", "P", "R", "M"]
 def case(draw, fam=None, kind=None):
     fam = fam or draw(st.sampled_from(FAMILIES))
     if fam == "M":
-        kind = kind or draw(st.sampled_from(["batch", "batch", "exch", "surf", "gas", "spec"]))
+        kind = kind or draw(st.sampled_from(["batch", "batch", "exch", "surf", "gas", "kin", "spec"]))
         m = draw(model(kind, want_mix=True))
     else:
         if fam in ("U", "U1") and kind is None:
@@ -531,11 +538,9 @@ def _reactant_blocks(m, st, view, simno):
         for r in k["rates"]:
             if r["law"] == 0:
                 law = "10 rate = PARM(1) * TOT(\"water\")"
-            elif r["law"] == 1:
-                law = "10 rate = PARM(1) * 1e3 * M"
             else:
-                law = "10 rate = PARM(1) * 1e3 * M0 * (M / M0)^0.67 * (1 - SR(\"%s\"))" % r["phase"]
-            rl.append(" %s\n -start\n %s\n 15 IF (M <= 0 AND rate > 0) THEN rate = 0\n 20 moles = rate * TIME\n 30 SAVE moles\n -end" % (r["name"], law))
+                law = "10 rate = PARM(1) * M0"
+            rl.append(" %s\n -start\n %s\n 20 moles = rate * TIME\n 30 SAVE moles\n -end" % (r["name"], law))
         out.append(_block("RATES", [], rl, "rates"))
     return out, uses
 
